@@ -298,5 +298,6 @@ class ProxyPeer(BasePeer):
 
 
 def basic_auth(user, password):
-    s = user if not password else f"{user}:{password}"
+    # RFC 7617: user-pass = user-id ":" password - the colon is there also when the password is empty
+    s = f"{user}:{password or ''}"
     return "Basic " + base64.b64encode(s.encode()).decode()
